@@ -115,7 +115,7 @@ def gen_omen(t, small=True, safe=True):
     if t.chance(1, 10):
         alphabet[-1] = "é"
     density = t.choice(["dense", "sparse", "deadend"])
-    level_pool = t.choice([[0, 1, 2], [0, 1, 2, 3, 5], [1, 2, 10], [0, 10], [0], [2, 3, 4, 7, 10]])
+    level_pool = t.choice([[0, 1, 2], [0, 1, 2, 3, 5], [1, 2, 10], [0, 10], [0], [2, 3, 4, 7, 10], [0, 6, 8, 9], list(range(11))])
     n1 = ngram - 1
     # all (n-1)-grams
     import itertools
